@@ -161,4 +161,28 @@ def queries(tier, seed):
     for q in qs:
         if q.name in names: continue
         names.add(q.name); out.append(q)
+    # the same files through a std::istream (GIL's istream_device over the stream model rt/rt_ios.c): twins of the FILE* queries
+    import copy as _copy, zlib as _zlib
+    for q in list(out):
+        if q.defs.get('DEV') != 1 or q.defs.get('ENTRY') not in (1, 2, 4, 5) or q.entry != 'h_read' or q.defs.get('CONCRETE_REST'): continue
+        t = _copy.copy(q); t.defs = dict(q.defs, DEV=3); t.rt = ['file', 'ios']; t.name = q.name.replace('/file/', '/istream/')
+        t.tier = 'quick' if (q.tier == 'quick' and _zlib.crc32(q.name.encode()) % 6 == 0) else 'thorough'
+        if q.defs['FORMAT'] == 1 and q.params[8] == -1:
+            # BMP through the stream model: the pixel-data offset (seekg target) is concrete = end of header + palette; a symbolic seek
+            # position makes every later stream read a symbolic-offset copy (no verdict in 300 s); symbolic offsets stay with the FILE* twins
+            hdr, bpp, comp, ncol = q.params[2], q.params[3], q.params[4], q.params[7]
+            pal = (ncol if ncol < 16 else 0) * (3 if hdr == 12 else 4) if bpp <= 8 else 0
+            t.params = list(q.params); t.params[8] = 14 + hdr + (12 if comp == 3 else 0) + pal
+        t.shape = dict(t.defs, params=list(t.params))
+        out.append(t)
+    # header determinism: read_image_info twice over the same (truncated) bytes must give the same outcome and the same header values
+    # (a header field assembled from bytes that a short read never filled is an arbitrary value in the model: the two parses differ)
+    byname = dict((q.name, q) for q in out)
+    for q in list(out):
+        if q.defs.get('ENTRY') != 2 or q.entry != 'h_read' or q.defs.get('DEV') not in (1, 3): continue
+        t = _copy.copy(q); t.entry = 'h_info_twice'; t.name = q.name.replace('/info/', '/info_twice/'); t.memcheck = True
+        if q.defs['DEV'] == 3:
+            f = byname.get(q.name.replace('/istream/', '/file/'))
+            t.tier = f.tier if f is not None else q.tier
+        out.append(t)
     return out
